@@ -3053,8 +3053,10 @@ func generateRandomizedSpec(
 	points := SupportedPointsExtension{SupportedPoints: []byte{pointFormatUncompressed}}
 
 	curveIDs := []CurveID{}
+	mlkemListed := false
 	if r.FlipWeightedCoin(id.Weights.CurveIDs_Append_X25519) && p.TLSVersMax == VersionTLS13 {
 		curveIDs = append(curveIDs, X25519MLKEM768)
+		mlkemListed = true
 	}
 	if r.FlipWeightedCoin(id.Weights.CurveIDs_Append_X25519) || p.TLSVersMax == VersionTLS13 {
 		curveIDs = append(curveIDs, X25519)
@@ -3113,9 +3115,14 @@ func generateRandomizedSpec(
 			if r.FlipWeightedCoin(id.Weights.KeyShare_Append_RandomGroups) {
 				ks.KeyShares = append(ks.KeyShares, KeyShare{Group: CurveP256})
 			}
-			if r.FlipWeightedCoin(id.Weights.KeyShare_Append_RandomGroups) {
-				ks.KeyShares = append([]KeyShare{{Group: X25519MLKEM768}}, ks.KeyShares...)
-			}
+			// The coin is still flipped to keep the PRNG stream position (and with it
+			// every later choice) unchanged for existing seeds.
+			_ = r.FlipWeightedCoin(id.Weights.KeyShare_Append_RandomGroups)
+		}
+		if mlkemListed {
+			// A key share must be for a group listed in supported_groups (RFC 8446,
+			// Section 4.2.8), and a listed hybrid group always carries its share.
+			ks.KeyShares = append([]KeyShare{{Group: X25519MLKEM768}}, ks.KeyShares...)
 		}
 		pskExchangeModes := PSKKeyExchangeModesExtension{[]uint8{pskModeDHE}}
 		supportedVersionsExt := SupportedVersionsExtension{
